@@ -368,6 +368,7 @@ fn run_qnt(input: &Value) -> (Case, bool) {
                 format!("fits={}", d.len() <= k),
                 format!("alpha={}", alpha),
                 format!("crop={}", crop.is_some()),
+                format!("small_view_of_large_parent={}", crop.is_some() && k > 0 && (w * h) / (k * 100) >= 2 && !sampled),
                 format!("sampled={}", sampled),
             ],
             nontrivial: d.len() >= 2,
@@ -647,6 +648,39 @@ fn gen_qnt_boundary(rng: &mut Rng) -> Value {
     json!({"kind": "qnt", "w": w, "h": h, "data": data, "crop": Value::Null, "k": k, "dither": rng.chance(1, 2), "bg": Value::Null})
 }
 
+/// a small cropped view (a few pixels, colours fitting the requested size) of a LARGE parent image
+/// (parent >= 200 * k pixels): crop/view share the parent's buffer, the view itself is far below the
+/// sub-sampling threshold, so it must be quantised from all of its own pixels and come back exactly
+fn gen_qnt_small_crop(rng: &mut Rng) -> Value {
+    let k = *rng.pick(&[1u64, 1, 2, 2, 3, 7, 8, 9]);
+    let w = 12 + rng.below(30) as usize;
+    let need = 200 * k as usize + rng.below(300) as usize;
+    let h = need / w + 2;
+    // the view
+    let vh = 1 + rng.below(3) as usize;
+    let vw = 1 + rng.below(3) as usize;
+    let r0 = rng.below((h - vh + 1) as u64) as usize;
+    let c0 = rng.below((w - vw + 1) as u64) as usize;
+    let m = (1 + rng.below(k.min((vh * vw) as u64)) as usize).max(1);
+    let view_cols = gen_distinct(rng, m);
+    let other = gen_colors(rng, 40);
+    let mut data = vec![];
+    for r in 0..h {
+        for c in 0..w {
+            let inside = r >= r0 && r < r0 + vh && c >= c0 && c < c0 + vw;
+            let col = if inside {
+                let idx = (r - r0) * vw + (c - c0);
+                if idx < m { view_cols[idx] } else { *rng.pick(&view_cols) }
+            } else {
+                *rng.pick(&other)
+            };
+            data.push(json!([col[0], col[1], col[2], 255]));
+        }
+    }
+    json!({"kind": "qnt", "w": w, "h": h, "data": data, "crop": [r0, r0 + vh, c0, c0 + vw], "k": k,
+           "dither": rng.chance(1, 2), "bg": Value::Null})
+}
+
 pub fn generate(rng: &mut Rng, n: usize, tier: &str) -> Vec<Value> {
     let thorough = tier == "thorough";
     let mut v = vec![];
@@ -654,7 +688,14 @@ pub fn generate(rng: &mut Rng, n: usize, tier: &str) -> Vec<Value> {
         let x = match i % 10 {
             0 | 1 | 2 => gen_kd(rng, thorough),
             3 | 4 | 5 => gen_oct(rng),
-            6 | 7 | 8 => gen_qnt(rng, false),
+            6 | 7 => gen_qnt(rng, false),
+            8 => {
+                if i % 20 == 8 {
+                    gen_qnt_small_crop(rng)
+                } else {
+                    gen_qnt(rng, false)
+                }
+            }
             _ => {
                 if i % 20 == 9 {
                     gen_qnt(rng, true)
